@@ -133,6 +133,14 @@ pub fn run(rep: &mut Rep) {
                 let warm = sim.start_op(0, OpSpec::Publish(PubSpec::simple(0, "w", b"")));
                 sim.settle();
                 let warm_ok = sim.ops[warm].out.as_ref().map(|o| o.is_ok()).unwrap_or(false);
+                // every second oversized case with Receive Maximum 2 has a QoS 1 publish in flight already: the refusal must
+                // neither take nor hand back a slot (one further publish fits, not two)
+                let inflight_first = m.map(|m| l > m && m >= 16).unwrap_or(false) && r == 2 && (idx / 2) % 2 == 1;
+                if inflight_first {
+                    sim.start_op(0, OpSpec::Publish(PubSpec::simple(1, "q", b"")));
+                    sim.settle();
+                    rep.add("oversized_requests_with_a_publish_in_flight", 1);
+                }
                 let before_snap = poster::verif::drain().last().cloned();
                 let w0 = sim.written_len();
                 // keep identifier allocation aligned with the twin
@@ -192,8 +200,9 @@ pub fn run(rep: &mut Rep) {
                             }
                         }
                         rep.add("quota_probes", 1);
-                        if accepted != r {
-                            viol(rep, format!("C12/quota-slot-left-behind/{kind}"), &id, format!("after the refused request only {accepted} of {r} QoS 1 publishes were accepted"), &sim);
+                        let free = if inflight_first { r - 1 } else { r };
+                        if accepted != free {
+                            viol(rep, format!("C12/quota-{}/{kind}", if accepted < free { "slot-left-behind" } else { "slot-handed-back" }), &id, format!("after the refused request {accepted} further QoS 1 publishes were accepted; Receive Maximum {r}, {} in flight before the request, so exactly {free} fit", r - free), &sim);
                         }
                     }
                     // ... and an acknowledgement bearing the identifier the request would have used completes nothing
